@@ -781,6 +781,9 @@ pub struct VDoc {
     pub version: (u32, u32),
     pub nsamples: usize,
     pub recs: Vec<VRec>,
+    /// additional FILTER lines f000, f001, … (a dictionary with more than 128 entries makes
+    /// BCF string-map indices need Int16)
+    pub extra_filters: usize,
 }
 
 const FLOATS: [&str; 8] = ["0.5", "1.25", "30", "0.001", "-2.5", "1e-05", "100000", "3.14"];
@@ -799,6 +802,9 @@ fn v_header_text(d: &VDoc) -> String {
     }
     for id in ["q10", "s50"] {
         s += &format!("##FILTER=<ID={id},Description=\"{id}\">\n");
+    }
+    for i in 0..d.extra_filters {
+        s += &format!("##FILTER=<ID=f{i:03},Description=\"f{i:03}\">\n");
     }
     for (id, n, t) in [("GT", "1", "String"), ("DP", "1", "Integer"), ("XQ", "1", "Float"), ("AD", "R", "Integer"), ("FT", "1", "String"), ("PL", "G", "Integer"), ("FC", "1", "Character"), ("FS", ".", "String")] {
         s += &format!("##FORMAT=<ID={id},Number={n},Type={t},Description=\"{id}\">\n");
@@ -989,8 +995,24 @@ pub fn gen_vdoc(rng: &mut Rng) -> VDoc {
         5 => 300 + rng.below(300) as usize,
         _ => 2 + rng.below(8) as usize,
     };
-    let recs = (0..n).map(|i| gen_vrec(rng, i, nsamples)).collect();
-    VDoc { version, nsamples, recs }
+    let mut recs: Vec<VRec> = (0..n).map(|i| gen_vrec(rng, i, nsamples)).collect();
+    // one document in six has a large FILTER dictionary and records that list several filters,
+    // a high-index one before a low-index one
+    let extra_filters = if rng.chance(1, 6) { 200 + rng.below(200) as usize } else { 0 };
+    if extra_filters > 0 {
+        for r in recs.iter_mut() {
+            if rng.chance(1, 2) {
+                let hi = 130 + rng.below(extra_filters as u64 - 130) as usize;
+                let lo = rng.below(100) as usize;
+                r.filters = Some(match rng.below(3) {
+                    0 => vec![format!("f{hi:03}"), format!("f{lo:03}")],
+                    1 => vec![format!("f{lo:03}"), format!("f{hi:03}"), "q10".to_string()],
+                    _ => vec![format!("f{hi:03}")],
+                });
+            }
+        }
+    }
+    VDoc { version, nsamples, recs, extra_filters }
 }
 
 /// header + records as the VCF reader parses the harness's own text rendering of the document
@@ -1867,7 +1889,7 @@ fn writer_dispatch(ctx: &mut Ctx) {
             }
         }
     }
-    let vdocs = [VDoc { version: (4, 3), nsamples: 0, recs: vec![] }, VDoc { version: (4, 4), nsamples: 1, recs: vec![VRec { chrom: "sq0".into(), pos: 7, refb: "A".into(), alts: vec!["C".into()], keys: vec!["GT".into()], samples: vec![vec![Some(VVal::Geno("0/1".into()))]], ..Default::default() }] }];
+    let vdocs = [VDoc { extra_filters: 0, version: (4, 3), nsamples: 0, recs: vec![] }, VDoc { extra_filters: 0, version: (4, 4), nsamples: 1, recs: vec![VRec { chrom: "sq0".into(), pos: 7, refb: "A".into(), alts: vec!["C".into()], keys: vec!["GT".into()], samples: vec![vec![Some(VVal::Geno("0/1".into()))]], ..Default::default() }] }];
     for doc in &vdocs {
         let (header, bufs) = v_parse(doc).expect("fixed document");
         for fo in [None, Some(VFmt::Vcf), Some(VFmt::Bcf)] {
@@ -1901,7 +1923,7 @@ fn window_corpus() -> Vec<(&'static str, Vec<u8>)> {
     use super::c01::{make_member, stored_member, EOF};
     let bam_raw = a_write(Some(AFmt::Bam), Some(Comp::Plain), &a_header(2), &[]).unwrap();
     let bcf_raw = {
-        let (h, b) = v_parse(&VDoc { version: (4, 3), nsamples: 0, recs: vec![] }).unwrap();
+        let (h, b) = v_parse(&VDoc { extra_filters: 0, version: (4, 3), nsamples: 0, recs: vec![] }).unwrap();
         let s = v_write(Some(VFmt::Bcf), Some(Comp::Bgzf), &h, &b).unwrap();
         sniff(&s).1
     };
@@ -2023,6 +2045,15 @@ fn a_corpus_doc(i: usize) -> Option<(ADoc, bool)> {
         9 => (ADoc { hkind: 2, recs: vec![mapped(b"CRAM1"), unmapped(b"r1")] }, true),
         10 => (ADoc { hkind: 3, recs: vec![mapped(b"r0"), mapped(b"r1"), unmapped(b"r2")] }, true),
         11 => (ADoc { hkind: 0, recs: vec![unmapped(b"CRA"), unmapped(b"CRAM2")] }, true),
+        // more records than one CRAM container holds (10240), the reference context changing at
+        // the container boundary: a coordinate-sorted file with an unmapped tail
+        12 => (
+            ADoc {
+                hkind: 2,
+                recs: (0..10_240).map(|k| mapped(format!("m{k}").as_bytes())).chain((0..7).map(|k| unmapped(format!("u{k}").as_bytes()))).collect(),
+            },
+            true,
+        ),
         _ => return None,
     })
 }
@@ -2030,10 +2061,10 @@ fn a_corpus_doc(i: usize) -> Option<(ADoc, bool)> {
 fn v_corpus_doc(i: usize) -> Option<VDoc> {
     let rec = |pos: usize| VRec { chrom: "sq0".into(), pos, refb: "A".into(), alts: vec!["C".into()], filters: Some(vec!["PASS".into()]), ..Default::default() };
     Some(match i {
-        0 => VDoc { version: (4, 3), nsamples: 0, recs: vec![] }, // header only
-        1 => VDoc { version: (4, 5), nsamples: 2, recs: vec![] },
-        2 => VDoc { version: (4, 2), nsamples: 0, recs: vec![rec(1)] },
-        3 => VDoc { version: (4, 4), nsamples: 0, recs: vec![rec(5), rec(9)] },
+        0 => VDoc { extra_filters: 0, version: (4, 3), nsamples: 0, recs: vec![] }, // header only
+        1 => VDoc { extra_filters: 0, version: (4, 5), nsamples: 2, recs: vec![] },
+        2 => VDoc { extra_filters: 0, version: (4, 2), nsamples: 0, recs: vec![rec(1)] },
+        3 => VDoc { extra_filters: 0, version: (4, 4), nsamples: 0, recs: vec![rec(5), rec(9)] },
         _ => return None,
     })
 }
@@ -2114,7 +2145,8 @@ pub fn run(ctx: &mut Ctx) {
             Some("acorpus") => {
                 if let Some((doc, cram)) = a_corpus_doc(arg as usize) {
                     let mut rng = Rng::new(arg);
-                    adoc_case(ctx, &doc, &format!("acorpus {arg}"), &mut rng, cram, true);
+                    let full = doc.recs.len() <= 20;
+                    adoc_case(ctx, &doc, &format!("acorpus {arg}"), &mut rng, cram, full);
                 }
             }
             Some("vcorpus") => {
@@ -2155,7 +2187,8 @@ pub fn run(ctx: &mut Ctx) {
     let mut i = 0;
     while let Some((doc, cram)) = a_corpus_doc(i) {
         let mut rng = Rng::new(i as u64);
-        adoc_case(ctx, &doc, &format!("acorpus {i}"), &mut rng, cram, true);
+        let full = doc.recs.len() <= 20;
+        adoc_case(ctx, &doc, &format!("acorpus {i}"), &mut rng, cram, full);
         i += 1;
     }
     let mut i = 0;
